@@ -186,7 +186,7 @@ func cmdCheck(args []string) {
 	if s := os.Getenv("VERIF_SEED"); s != "" {
 		seed, _ = strconv.Atoi(s)
 	}
-	o := checkOpts{repo: *repo, verif: *verif, tier: *tier, seed: seed, timeout: 30 * time.Second}
+	o := checkOpts{repo: *repo, verif: *verif, tier: *tier, seed: seed, timeout: 45 * time.Second}
 	if *tier == "thorough" {
 		o.timeout = 90 * time.Second
 	}
